@@ -1,4 +1,252 @@
-From Coq Require Import ZArith List Bool.
-From Urwid Require Import PyBase Signals.
-Theorem placeholder_c14 : True. Proof. exact I. Qed.
-Print Assumptions placeholder_c14.
+(* C14 - Signals reach every connected handler exactly once per emit.
+   Only statements here; every proof is [exact <lemma>] into Proofs/SignalsProofs.v.
+   The model (Model/Signals.v) is hand-written from /repo/urwid/signals.py and tied to it by the
+   event-trace correspondence in harness/props/c14.py.
+
+   Reading guide.  [run_op (S f) env (OEmit s n args) st = (st', evs, status)] is one emit (top
+   level or nested, [f] is the fuel left for the emits nested inside it) from ANY state [st]
+   satisfying the connection-order invariant [Inv] (proved to hold after every history), with
+   ANY callback script table [env] (scripts connect, disconnect, emit, drop objects, collect).
+   [evs] is the single event [EvEmit s n args ch out]; the calls the emit made itself are the
+   [EvCall] children of [ch]: [direct_calls ch], their handler keys [called_keys ch].
+   [status = Done] says the emit returned; otherwise an exception left it (NameError from a
+   script, or RecursionError = out of fuel) and the clauses about completed emits do not apply.
+   "The signal machinery never keeps a sender or a weak argument alive" is a statement about the
+   CPython heap and is NOT a theorem: it is checked by the harness (weakref + gc.collect()). *)
+From Coq Require Import ZArith List Bool Sorted.
+Import ListNotations.
+From Urwid Require Import PyBase Signals SignalsProofs.
+Open Scope Z_scope.
+
+(* --- each emit invokes every handler that stays connected throughout it exactly once, in
+       connection order.  The calls are a subsequence of the handler list at the start of the
+       emit (so: connection order, nobody twice, nobody connected later); and a handler of that
+       list that is still connected when the emit returns - equivalently, connected throughout,
+       see [disconnected_handlers_never_return] - with live weak arguments is called exactly
+       once. --- *)
+Theorem emit_exactly_once_in_order :
+  forall f env s n args st st' evs status,
+    Inv st -> run_op (S f) env (OEmit s n args) st = (st', evs, status) ->
+    exists ch out,
+      evs = [EvEmit s n args ch out] /\
+      sublist (called_keys ch) (keys st s n) /\
+      NoDup (called_keys ch) /\
+      (status = Done ->
+       forall h, In h (handlers st s n) -> In (h_key h) (keys st' s n) -> wargs_alive st' h ->
+                 count_occ Z.eq_dec (called_keys ch) (h_key h) = 1%nat).
+Proof. exact emit_exactly_once_in_order_proof. Qed.
+Print Assumptions emit_exactly_once_in_order.
+
+(* a key that has been removed from a handler list never comes back, whatever runs (one
+   operation with its nested callbacks, or a whole history): new connections get new keys *)
+Theorem disconnected_handlers_never_return :
+  forall fuel env o st s n k,
+    Inv st -> k < st_nkey st -> ~ In k (keys st s n) ->
+    ~ In k (keys (fst (fst (run_op fuel env o st))) s n).
+Proof. exact removed_keys_stay_removed_op. Qed.
+Print Assumptions disconnected_handlers_never_return.
+
+Theorem disconnected_handlers_never_return_history :
+  forall fuel env ops st s n k,
+    Inv st -> k < st_nkey st -> ~ In k (keys st s n) ->
+    ~ In k (keys (fst (run_top fuel env ops st)) s n).
+Proof. exact removed_keys_stay_removed_history. Qed.
+Print Assumptions disconnected_handlers_never_return_history.
+
+(* --- the exact rule at each handler's turn (by cutting the loop with [emit_loop_cut]): in the
+       state reached when its turn comes, a handler that is no longer connected or has a dead
+       weak argument is skipped without any effect; otherwise it is the next call --- *)
+Theorem emit_loop_cut :
+  forall call s n pre post st res,
+    emit_loop call s n (pre ++ post) st res =
+    let '(st1, e1, s1, r1) := emit_loop call s n pre st res in
+    match s1 with
+    | Done => let '(st2, e2, s2, r2) := emit_loop call s n post st1 r1 in (st2, e1 ++ e2, s2, r2)
+    | Raised c => (st1, e1, Raised c, r1)
+    end.
+Proof. exact emit_loop_app. Qed.
+Print Assumptions emit_loop_cut.
+
+Theorem handler_skipped_at_its_turn :
+  forall run env args s n h post st res,
+    (~ In (h_key h) (keys st s n)) \/ (In (h_key h) (keys st s n) /\ ~ wargs_alive st h) ->
+    emit_loop (call_callback run env args) s n (h :: post) st res
+    = emit_loop (call_callback run env args) s n post st res.
+Proof. exact emit_turn_skipped. Qed.
+Print Assumptions handler_skipped_at_its_turn.
+
+Theorem handler_called_at_its_turn :
+  forall run env args s n h post st res,
+    In (h_key h) (keys st s n) -> wargs_alive st h ->
+    exists body ret rest,
+      snd (fst (fst (emit_loop (call_callback run env args) s n (h :: post) st res)))
+      = EvCall (h_key h) (h_cb h) (argv_of h args) body ret :: rest.
+Proof. exact emit_turn_called. Qed.
+Print Assumptions handler_called_at_its_turn.
+
+(* --- handlers already disconnected when the emit starts and handlers whose weak arguments
+       have died are never called --- *)
+Theorem dead_or_disconnected_never_called :
+  forall f env s n args st st' evs status,
+    Inv st -> run_op (S f) env (OEmit s n args) st = (st', evs, status) ->
+    exists ch out,
+      evs = [EvEmit s n args ch out] /\
+      (forall k, ~ In k (keys st s n) -> ~ In k (called_keys ch)) /\
+      (forall h, In h (handlers st s n) -> ~ wargs_alive st h -> ~ In (h_key h) (called_keys ch)).
+Proof. exact dead_or_disconnected_never_called_proof. Qed.
+Print Assumptions dead_or_disconnected_never_called.
+
+(* --- an emit that returns, returns whether any handler it called returned a true value
+       (and every call it made returned) --- *)
+Theorem emit_result_is_or :
+  forall f env s n args st st' evs status,
+    Inv st -> run_op (S f) env (OEmit s n args) st = (st', evs, status) ->
+    status = Done ->
+    exists ch,
+      evs = [EvEmit s n args ch (enc_bool (existsb ret_truthy (direct_calls ch)))] /\
+      forall c, In c (direct_calls ch) -> c_ret c <> None.
+Proof. exact emit_result_is_or_proof. Qed.
+Print Assumptions emit_result_is_or.
+
+(* --- every call gets the weak arguments, then the user arguments given at connect time, then
+       the emitted arguments (then the deprecated user_arg, if one was given) --- *)
+Theorem args_order :
+  forall f env s n args st st' evs status,
+    Inv st -> run_op (S f) env (OEmit s n args) st = (st', evs, status) ->
+    exists ch out,
+      evs = [EvEmit s n args ch out] /\
+      forall c, In c (direct_calls ch) ->
+        exists h, In h (handlers st s n) /\ c_key c = h_key h /\ c_cb c = h_cb h /\
+          c_argv c = map VObj (h_wargs h) ++ map VInt (h_uargs h) ++ map VInt args
+                       ++ match h_uarg h with Some u => [VInt u] | None => [] end.
+Proof. exact args_order_proof. Qed.
+Print Assumptions args_order.
+
+(* --- disconnecting something that is not connected does nothing (same state, no exception) --- *)
+Theorem disconnect_absent_noop :
+  forall fuel env s n cb ua ws us st,
+    (forall h, In h (handlers st s n) ->
+       ~ (h_cb h = cb /\ h_uarg h = ua /\ h_wargs h = ws /\ h_uargs h = us)) ->
+    exists out, run_op fuel env (ODisconnect s n cb ua ws us) st = (st, [EvDis s n cb ua ws us out], Done).
+Proof. exact disconnect_absent_proof. Qed.
+Print Assumptions disconnect_absent_noop.
+
+Theorem disconnect_by_key_absent_noop :
+  forall fuel env s n k st,
+    ~ In k (keys st s n) ->
+    run_op fuel env (ODisconnectKey s n k) st = (st, [EvDk s n k 0], Done).
+Proof. exact disconnect_key_absent_proof. Qed.
+Print Assumptions disconnect_by_key_absent_noop.
+
+(* --- connecting to a signal name not registered for the sender's class is rejected (NameError,
+       nothing changes); a registered name appends a handler with a fresh key at the end --- *)
+Theorem unregistered_name_rejected :
+  forall fuel env s n cb ua ws us st,
+    (forall w, In w ws -> In w (st_reg st)) ->
+    ~ In n (sup_lookup (st_sup st) (sender_class env s)) ->
+    run_op fuel env (OConnect s n cb ua ws us) st = (st, [EvCon s n cb ua ws us (-1)], Raised (-1)).
+Proof. exact unregistered_proof. Qed.
+Print Assumptions unregistered_name_rejected.
+
+Theorem registered_name_connects_last :
+  forall fuel env s n cb ua ws us st,
+    (forall w, In w ws -> In w (st_reg st)) ->
+    In n (sup_lookup (st_sup st) (sender_class env s)) ->
+    exists st',
+      run_op fuel env (OConnect s n cb ua ws us) st = (st', [EvCon s n cb ua ws us (st_nkey st)], Done) /\
+      handlers st' s n = handlers st s n ++ [MkHandler (st_nkey st) cb ua ws us] /\
+      st_nkey st' = st_nkey st + 1 /\
+      forall s' n', (s', n') <> (s, n) -> handlers st' s' n' = handlers st s' n'.
+Proof. exact connect_registered_proof. Qed.
+Print Assumptions registered_name_connects_last.
+
+Theorem registration_is_per_class :
+  forall t c v c', sup_lookup (sup_update t c v) c' = if c =? c' then v else sup_lookup t c'.
+Proof. exact sup_lookup_update. Qed.
+Print Assumptions registration_is_per_class.
+
+(* --- a weak argument that is garbage-collected: its weakref callbacks remove exactly the
+       handlers that reference it (for senders that are true in a boolean context; the
+       callback tests [if o:]) --- *)
+Theorem weak_argument_death_disconnects :
+  forall env o st s n,
+    handlers (die env o st) s n
+    = if sender_truthy env s then filter (fun h => negb (memz o (h_wargs h))) (handlers st s n)
+      else handlers st s n.
+Proof. exact handlers_die. Qed.
+Print Assumptions weak_argument_death_disconnects.
+
+Theorem dropping_unheld_object_kills_it :
+  forall fuel env o st,
+    In o (st_reg st) -> ~ In o (st_held st) -> cyclic env o = false -> st_pend st = [] ->
+    exists st',
+      run_op fuel env (OKill o) st = (st', [EvKill o 0; EvDied o], Done) /\
+      In o (st_dead st') /\
+      forall s n, handlers st' s n =
+        if sender_truthy env s then filter (fun h => negb (memz o (h_wargs h))) (handlers st s n)
+        else handlers st s n.
+Proof. exact kill_unheld_proof. Qed.
+Print Assumptions dropping_unheld_object_kills_it.
+
+(* --- connection order over histories: after any history of top-level operations (with any
+       scripts, any fuel, exceptions included) every handler list is strictly increasing in key
+       number, i.e. in the order the connects happened, and every key is one already issued;
+       every single operation preserves this --- *)
+Theorem connection_order_all_histories :
+  forall fuel env ops nobj s n,
+    let st := fst (run_top fuel env ops (init nobj)) in
+    StronglySorted Z.lt (keys st s n) /\ forall k, In k (keys st s n) -> k < st_nkey st.
+Proof. intros fuel env ops nobj s n. exact (history_connection_order fuel env ops nobj s n). Qed.
+Print Assumptions connection_order_all_histories.
+
+Theorem connection_order_preserved :
+  forall fuel env o st, Inv st -> Inv (fst (fst (run_op fuel env o st))).
+Proof. intros fuel env o st Hi. exact (le_inv _ _ (run_op_le fuel env o st Hi)). Qed.
+Print Assumptions connection_order_preserved.
+
+(* --- non-vacuity: a history with a handler that disconnects itself during the emit (the
+       defect repaired by the snapshot fix: the next handler used to be skipped), a weakly
+       referenced argument dropped by a later handler, and a second emit --- *)
+Definition ex_env : envt :=
+  MkEnv [true] [0] [false; true]
+        [ MkScript [ODisconnectKey 0 0 0] 0;     (* callback 0 disconnects itself, returns False *)
+          MkScript [] 1;                         (* callback 1 returns True *)
+          MkScript [OKill 0] 2 ].                (* callback 2 drops object 0, returns None *)
+Definition ex_ops : list op :=
+  [ ORegister 0 [0];
+    OConnect 0 0 0 None [] [10];
+    OConnect 0 0 1 None [0] [11];
+    OConnect 0 0 2 None [] [];
+    OConnect 0 5 2 None [] [];                   (* unregistered name *)
+    OEmit 0 0 [7];
+    OEmit 0 0 [] ].
+
+Definition emit_summary (e : event) : list Z * Z :=
+  match e with EvEmit _ _ _ ch out => (called_keys ch, out) | _ => ([], -7) end.
+
+Example run_somewhere :
+  let '(st, evs) := run_top 2 ex_env ex_ops (init 2) in
+  (map emit_summary evs, keys st 0 0, st_dead st)
+  = ([([], -7); ([], -7); ([], -7); ([], -7); ([], -7); ([0; 1; 2], 1); ([2], 0)], [2], [0]).
+Proof. vm_compute. reflexivity. Qed.
+
+Example args_somewhere :
+  let '(st, evs) := run_top 2 ex_env (firstn 6 ex_ops) (init 2) in
+  match last evs EvGc with
+  | EvEmit _ _ _ ch _ => map c_argv (direct_calls ch)
+  | _ => []
+  end = [[VInt 10; VInt 7]; [VObj 0; VInt 11; VInt 7]; [VInt 7]].
+Proof. vm_compute. reflexivity. Qed.
+
+(* the hypotheses of the emit theorems are met by an ordinary state: three connected handlers,
+   one of which stays connected through the emit *)
+Example hypotheses_somewhere :
+  let st := fst (run_top 2 ex_env (firstn 5 ex_ops) (init 2)) in
+  keys st 0 0 = [0; 1; 2] /\
+  exists st' evs, run_op 2 ex_env (OEmit 0 0 [7]) st = (st', evs, Done) /\ keys st' 0 0 = [2].
+Proof. split; [vm_compute; reflexivity|]. eexists _, _. split; vm_compute; reflexivity. Qed.
+
+(* out of fuel is an error, not a silent truncation *)
+Example out_of_fuel_somewhere :
+  snd (run_op 0 ex_env (OEmit 0 0 []) (init 0)) = Raised (-3).
+Proof. reflexivity. Qed.
